@@ -42,8 +42,8 @@ class StorageSetup(Contract):
                     for costs_only in (False, True):
                         if costs_only and nosim:
                             continue
-                        for tg in ('given', 'preset'):
-                            if tg == 'preset' and (costs_only or nosim or nodes == 2):
+                        for tg in ('given', 'preset', 'same'):
+                            if tg != 'given' and (costs_only or nosim or nodes == 2):
                                 continue
                             out.append(dict(nodes=nodes, price=price, nosim=nosim, costs_only=costs_only, tg=tg))
         return out
@@ -69,6 +69,14 @@ class StorageSetup(Contract):
             g.set('discount_factors', Arr(g.get('T'), lambda k: df(lift(k))))
             g.set('restricted', R)
             tg_arg = None
+        elif case['tg'] == 'same':
+            # the asset already holds this very grid object, whose derived cache was overwritten by ANOTHER asset since
+            # (other window, other wacc): the set-up has to rebuild it all the same (C10 / C20: no short cut on identity)
+            self_obj.set('timegrid', g)
+            sdf = disc_fun(H, 'stale')
+            g.set('restricted', mk_restricted(H, g, pfx='stale', df=sdf))
+            g.set('discount_factors', Arr(g.get('T'), lambda k: sdf(lift(k))))
+            tg_arg = g
         else:
             g.set('restricted', Havoc('stale cache: restricted grid of an earlier set-up'))
             g.set('discount_factors', Havoc('stale cache: discount factors of an earlier set-up'))
@@ -141,6 +149,13 @@ class StorageSetup(Contract):
         yield (pfx + '/two_var', S.implies(two, lambda: S.forall(n, lambda i: S.and_(
             S.eq(c.f(i), (-v['cost_in'] - p(i)) * d(i) - eff * Hh(i)),
             S.eq(c.f(n + i), (v['cost_out'] - p(i)) * d(i) - Hh(i))))))
+        if not case['costs_only']:
+            # C12 "per-time costs always scale with the actual length of the step": the holding-cost part H_i of the cost vector is the
+            # tail sum of cost_store x dt_j x df_j (each later step with ITS OWN length) -- same formulas, stated under C12 as well
+            yield ('C12.storage.holding_cost_follows_step_length/one_var', S.implies(one, lambda: S.forall(n, lambda i: S.eq(c.f(i), -p(i) * d(i) - Hh(i)))))
+            yield ('C12.storage.holding_cost_follows_step_length/two_var', S.implies(two, lambda: S.forall(n, lambda i: S.and_(
+                S.eq(c.f(i), (-v['cost_in'] - p(i)) * d(i) - eff * Hh(i)),
+                S.eq(c.f(n + i), (v['cost_out'] - p(i)) * d(i) - Hh(i))))))
         if case['nosim']:
             yield ('C05.storage.nosimult.cost', S.implies(two, lambda: S.forall(n, lambda i: S.eq(c.f(2 * n + i), 0))))
         if case['costs_only']:
@@ -264,7 +279,13 @@ class StorageSetup(Contract):
             raise N.NotRealisable('constructor precondition (start_level <= size, caps >= 0)')
         a = eao.assets.Storage(name='asset_name', nodes=nodes if len(nodes) > 1 else nodes[0], start=start, end=end,
                                wacc=float(P['wacc']), price=case['price'], no_simult_in_out=case['nosim'], **kw)
-        if case['tg'] == 'preset':
+        if case['tg'] == 'same':
+            a.set_timegrid(tg)
+            _pts = list(tg.timepoints) + [tg.end]
+            _other = eao.assets.SimpleContract(name='other asset', nodes=eao.assets.Node('elsewhere'), start=_pts[min(1, len(_pts) - 1)], end=_pts[-1], wacc=0.37)
+            _other.set_timegrid(tg)      # overwrites the shared grid's restricted part and discount factors
+            call = lambda: a.setup_optim_problem(prices, tg, case['costs_only'])
+        elif case['tg'] == 'preset':
             a.set_timegrid(tg)
             call = lambda: a.setup_optim_problem(prices, None, case['costs_only'])
         else:
